@@ -1,7 +1,7 @@
 """C17 - :host conversion partitions rules without loss (structural half)."""
 from rules import csspacks as cp
 
-RULE = 'C17.pair: write_in_low_priority sets and clears the stream flag around its body and opens/closes one wrapper per enclosing at-rule on every path; wrap_at_rule_output pushes/pops around the nested rule list; the at-rule prelude text is captured for replay. C17.only: the two outputs, the flag and the at-rule stack are mutated only by their owner functions (MIR field-writer query); an illegal :host combination writes to neither stream and warns; everything is behind options.convert_host; :host declarations go through the ordinary value routine.'
+RULE = 'C17.rules: every rule-bearing at-rule of refs/css_refs.json has its block parsed as a rule list (so a nested :host is seen). C17.only/detection: `:host` is recognised by exact comparison and anything else falls back to the ordinary selector path. C17.pair: write_in_low_priority sets and clears the stream flag around its body and opens/closes one wrapper per enclosing at-rule on every path; wrap_at_rule_output pushes/pops around the nested rule list; the at-rule prelude text is captured for replay. C17.only: the two outputs, the flag and the at-rule stack are mutated only by their owner functions (MIR field-writer query); an illegal :host combination writes to neither stream and warns; everything is behind options.convert_host; :host declarations go through the ordinary value routine.'
 EXPLANATION = ("The token-dispatch loops of the stylesheet compiler are located by role in the expanded syntax tree and their arms, "
                "flags and field writers (MIR) are checked against the rule; no stylesheet is ever transformed.")
 ASSUMPTIONS = ["cssparser tokenises and serialises per CSS Syntax 3", "refs/css_refs.json lists rule-bearing at-rules and math functions correctly",
@@ -13,4 +13,5 @@ def run(ctx):
     if not ok:
         return obs
     obs += cp.host_rules(ctx, 'C17')
+    obs += cp.rules_rule(ctx, 'C17')
     return obs
